@@ -181,7 +181,14 @@ Returns:
 */
 func (ego *list) isEqual(another any) bool {
 	list, ok := another.(*list)
-	if !ok || ego.Ego().Count() != list.Count() {
+	if !ok {
+		// A derived structure embedding a list is compared from its side (there the embedded list is the receiver)
+		if derived, isList := another.(List); isList {
+			return derived.isEqual(ego)
+		}
+		return false
+	}
+	if ego.Ego().Count() != list.Count() {
 		return false
 	}
 	for i := range ego.val {
